@@ -581,6 +581,9 @@ func (ms *Modules) ClearEntryCache() {
 	ms.entryCacheMu.Lock()
 	defer ms.entryCacheMu.Unlock()
 	ms.entryCache = map[Node]*Entry{}
+	// The entries that remembered which submodules they have merged are
+	// gone; the next conversion of a module has to merge them again.
+	ms.mergedSubmodule = map[string]bool{}
 }
 
 // startBuilding records that ToEntry has started converting n. It returns
